@@ -4,6 +4,7 @@ package coord
 
 import (
 	"bytes"
+	"errors"
 	"fmt"
 	"io"
 	"iter"
@@ -38,7 +39,18 @@ type Loc struct {
 	closed  bool
 	waiters []*waiter
 	// Started counts calls that have begun (including blocked ones)
-	Started map[string]int
+	Started      map[string]int
+	failWrites   int // upcoming writes (whose path contains failSubstr) that fail with a storage error
+	failSubstr   string
+	FailedWrites int
+}
+
+// FailNextWrites makes the next n writes whose path contains substr fail: the
+// call returns an error and nothing is stored.
+func (l *Loc) FailNextWrites(n int, substr string) {
+	l.mu.Lock()
+	l.failWrites, l.failSubstr = n, substr
+	l.mu.Unlock()
 }
 
 func NewLoc(root string) *Loc {
@@ -130,6 +142,12 @@ func (l *Loc) Write(path string, data io.Reader) (string, error) {
 	p := l.full(path)
 	l.mu.Lock()
 	l.gate("write", p)
+	if l.failWrites > 0 && strings.Contains(p, l.failSubstr) {
+		l.failWrites--
+		l.FailedWrites++
+		l.mu.Unlock()
+		return "", errors.New("injected storage write fault")
+	}
 	l.files[p] = b
 	l.journal = append(l.journal, LocOp{Kind: "write", Path: p, Data: b})
 	l.cond.Broadcast()
